@@ -1,11 +1,11 @@
-From Coq Require Import List NArith Lia ZifyBool.
+From Coq Require Import List NArith Lia ZifyBool Bool.
 Import ListNotations.
 Local Open Scope N_scope.
 Goal forall (l : list N) (n : N), n <= N.of_nat (length l) -> (N.to_nat n <= length l)%nat.
 Proof. intros. lia. Qed.
 Goal forall a b : N, (a <=? b) = true -> N.min a b = a.
 Proof. intros. lia. Qed.
-Goal forall a b : N, (a <? b) || (b =? 3) = false -> b <= a /\ b <> 3.
+Goal forall a b : N, ((a <? b) || (b =? 3))%bool = false -> b <= a /\ b <> 3.
 Proof. intros. lia. Qed.
 Goal forall a : N, a < 65536 -> a mod 65536 = a.
 Proof. intros. rewrite N.mod_small; lia. Qed.
